@@ -70,6 +70,9 @@ def fd_weights_all(x, x0=0, n=1):
     m = len(x)
     _assert(n < m, 'len(x) must be larger than n')
 
+    if np.asarray(x).dtype.kind in 'iub':
+        # integer-typed nodes: the running products of node differences overflow int64 silently
+        x = np.asarray(x, dtype=float)
     weights = np.zeros((m, n + 1))
     _fd_weights_all(weights, x, x0, n)
     return weights.T
